@@ -29,10 +29,16 @@ def run(c):
               "spelled like a parameter of the called helper --, package-level variables, group-level constants that shadow package-level ones, "
               "a package-level function named like an earlier group's helper, helpers called several times with other arguments, blank parameters in "
               "every position (one field per parameter or grouped), helper bodies that name package-level / group-level / shadowing group-level "
-              "constants in every string and int argument position; a fixed catalogue of 35 helper shapes with hand-written twins; const cases: one spelled argument vs its plain literal; distinct "
+              "constants in every string and int argument position; higher-order helpers (a parameter of function type called in the body, spelled like nothing else / like a helper of the group / like "
+              "the higher-order helper itself; the argument is another helper, defined before or after); a fixed catalogue of 58 shapes with "
+              "hand-written twins (incl. files of 2-3 groups that spell their Where() alike over equal-named constants / helpers that mean "
+              "something else in each group); const cases: one spelled argument vs its plain literal, and files of 2-3 groups with ONE Where() text "
+              "over the constant names kT / kN / kV / kP to which every group gives its own values (declared in the group or left to the package "
+              "level; also as arguments of an equal-named helper) vs the same file with literals; distinct "
               "by source text; non-trivial when (a) loads (equality is really compared) or the spelling is not a plain literal")
     c.trusted += [
-        "go2coq macroshape (pinned statement lists, path table of convertFilterExprImpl, scan of the writes of conv.groupFuncs and of the reset position)",
+        "go2coq macroshape (pinned statement lists, path table of convertFilterExprImpl, scan of the writes of conv.groupFuncs and of the reset position, "
+        "scan of the reads of a Src field in ruleguard/*.go and ruleguard/ir/*.go)",
         "the printer of the type-checked rules file as a model term (harness/cmd/c18/model.go: types.Info.Types values as annotations) and the generator's own inliner",
         "harness/cmd/c18, hook ruleguard.VerifConvertAST",
     ]
@@ -58,9 +64,9 @@ def run(c):
         return c.finish()
     state = {"round": 0}
 
-    def observe(seed, nh, nc):
+    def observe(seed, nh, nc, ng=30):
         state["round"] += 1
-        rc, out = c.run_harness(hb, ["-seed", str(seed), "-helpers", str(nh), "-consts", str(nc),
+        rc, out = c.run_harness(hb, ["-seed", str(seed), "-helpers", str(nh), "-consts", str(nc), "-gconsts", str(ng),
                                      "-tmp", os.path.join(c.work, "tmp%d" % state["round"])], timeout=2400)
         cases = []
         for line in out.splitlines():
@@ -129,7 +135,8 @@ def run(c):
                 if sa == "ok":
                     c.nontriv(x["src_a"])
                     if sb != "ok" or not x["ir_equal"] or a.get("reports") != b.get("reports"):
-                        c.fail("oracle", "a group with a local helper loads with a meaning different from the inlined group", input=inp,
+                        c.fail("oracle", "a group with local helpers / named constants loads with a meaning different from the same group written out "
+                               "(helpers inlined, constants as literals)" + (": Go's reading of it calls a package-level function and is not a loadable rule" if x.get("twin_rejected") or x.get("pkg_before") else ""), input=inp,
                                observed={"ir": a.get("ir"), "reports": a.get("reports")},
                                expected={"ir": b.get("ir"), "reports": b.get("reports"), "inlined_status": b.get("conv_err") or b.get("load_err") or "ok"})
                 if x["id"] in verdict and not (sa == "conv_err" and not (a.get("conv_err") or "").startswith("irconv error")):
@@ -164,8 +171,11 @@ def run(c):
         fixed = [x for x in hs if x.get("fixed")]
         if fixed:
             # the hand-written twins of the fixed catalogue are meaningful: each loads and reports on the probe file
-            dead = [x["fixed"] for x in fixed if not x.get("crash") and (status(x["b"]) != "ok" or not x["b"].get("reports"))]
-            c.obligation("fixed-twins-meaningful:" + tag, not dead, "inlined twins that do not load or do not report: %s" % dead, count=1)
+            dead = [x["fixed"] for x in fixed if not x.get("crash") and not x.get("twin_rejected") and (status(x["b"]) != "ok" or not x["b"].get("reports"))]
+            # ... except where Go's reading of the group is not a loadable rule (a helper calls a package-level function): that twin is rejected
+            dead += [x["fixed"] for x in fixed if not x.get("crash") and x.get("twin_rejected") and status(x["b"]) == "ok"]
+            c.obligation("fixed-twins-meaningful:" + tag, not dead, "inlined twins that do not load or do not report (or load although they call a "
+                         "package-level function): %s" % dead, count=1)
             c.coverage["fixed_twin_cases"] = c.coverage.get("fixed_twin_cases", 0) + len(fixed)
             c.coverage["fixed_twin_cases_loaded"] = c.coverage.get("fixed_twin_cases_loaded", 0) + sum(1 for x in fixed if status(x["a"]) == "ok")
         c.coverage["helper_cases"] = c.coverage.get("helper_cases", 0) + len(hs)
@@ -177,23 +187,27 @@ def run(c):
                          ("legacy_octal_in_helper_body", "octal"), ("package_func_named_like_helper", "pkg_func"),
                          ("helper_called_more_than_once", "twice"), ("helper_with_blank_param", "blank"),
                          ("helper_with_blank_param_before_named", "blank_first"), ("helper_body_names_constant", "const_body"),
-                         ("helper_body_names_shadowed_constant", "shadow_body")):
+                         ("helper_body_names_shadowed_constant", "shadow_body"), ("helper_calls_package_function_named_like_a_later_helper", "pkg_before"), ("higher_order_helper", "higher_order"),
+                         ("higher_order_parameter_named_like_a_helper", "higher_named")):
             for tag, pred in (("", lambda x: True), ("_loaded", lambda x: status(x["a"]) == "ok")):
                 c.coverage[key + tag] = c.coverage.get(key + tag, 0) + sum(
                     1 for x in hs if pred(x) and (x.get("groups", 1) > 1 if fld is None else x.get(fld)))
         c.coverage["const_cases"] = c.coverage.get("const_cases", 0) + len(cases) - len(hs)
+        gcs = [x for x in cases if x.get("group_consts")]
+        c.coverage["equal_named_group_constants_cases"] = c.coverage.get("equal_named_group_constants_cases", 0) + len(gcs)
+        c.coverage["equal_named_group_constants_loaded"] = c.coverage.get("equal_named_group_constants_loaded", 0) + sum(1 for x in gcs if status(x["a"]) == "ok")
         c.coverage["model_vs_impl_cases"] = c.coverage.get("model_vs_impl_cases", 0) + len(verdict)
         c.coverage["outside_model_cases"] = c.coverage.get("outside_model_cases", 0) + sum(1 for x in hs if x.get("outside_model"))
 
     if thorough:
         for k in range(3):
-            judge(observe(c.seed * 37 + k, 1000, 400), "t%d" % k)
+            judge(observe(c.seed * 37 + k, 1000, 400, 200), "t%d" % k)
     else:
         judge(observe(c.seed, 260, 140), "main")
 
     def search():
         for k in range(1, 4):
-            judge(observe(c.seed * 2003 + k, 900, 400), "s%d" % k)
+            judge(observe(c.seed * 2003 + k, 900, 400, 200), "s%d" % k)
             if any(f["kind"] == "oracle" and not f.get("finding") for f in c.failures):
                 break
 
